@@ -190,7 +190,7 @@ fn main() {
     let mut inputs: Vec<Sym> = vec![];
     for name in TABLE {
         let code = table_code(name);
-        if code.len() > if th { 9 } else { 6 } {
+        if code.len() > if th { 9 } else { 7 } {
             continue;
         }
         match make_sym(format!("table:{name}"), code.clone()) {
